@@ -139,7 +139,7 @@ func PathOf(v ssa.Value) string {
 }
 
 func pathOf(v ssa.Value, depth int) string {
-	if depth > 12 {
+	if depth > 12 || v == nil {
 		return "?"
 	}
 	v = strip(v)
@@ -903,6 +903,96 @@ func ReturnValues(ret *ssa.Return) []ssa.Value {
 				out[i] = st.Val
 			}
 		}
+	}
+	return out
+}
+
+// instrBefore reports whether a executes before b on every path reaching b
+// (a's block strictly dominates b's block, or same block and earlier).
+func instrBefore(a, b ssa.Instruction) bool {
+	if a.Block() == b.Block() {
+		return instrIndex(a) < instrIndex(b)
+	}
+	return a.Block().Dominates(b.Block())
+}
+
+// FieldValuesAt returns the possible values of field fld of the local aggregate
+// al at instruction use, honouring the last dominating field store (which kills
+// earlier whole-struct and field stores).
+func FieldValuesAt(al *ssa.Alloc, fld *types.Var, use ssa.Instruction) []ssa.Value {
+	type stv struct {
+		st  *ssa.Store
+		val []ssa.Value
+	}
+	var all []stv
+	for _, ref := range *al.Referrers() {
+		switch r := ref.(type) {
+		case *ssa.FieldAddr:
+			if FieldOfAddr(r) != fld {
+				continue
+			}
+			for _, rr := range *r.Referrers() {
+				if st, ok := rr.(*ssa.Store); ok && st.Addr == ssa.Value(r) {
+					all = append(all, stv{st, []ssa.Value{st.Val}})
+				}
+			}
+		case *ssa.Store:
+			if r.Addr == ssa.Value(al) {
+				all = append(all, stv{r, FieldValues(r.Val, fld)})
+			}
+		}
+	}
+	var kill *stv
+	for i := range all {
+		s := &all[i]
+		if !instrBefore(s.st, use) {
+			continue
+		}
+		if kill == nil || instrBefore(kill.st, s.st) {
+			kill = s
+		}
+	}
+	if kill == nil {
+		var out []ssa.Value
+		for _, s := range all {
+			out = append(out, s.val...)
+		}
+		if len(out) == 0 {
+			out = append(out, zeroConst(fld.Type()))
+		}
+		return out
+	}
+	out := append([]ssa.Value{}, kill.val...)
+	fn := use.Parent()
+	for i := range all {
+		s := &all[i]
+		if s == kill {
+			continue
+		}
+		after, _ := MayReach(fn, kill.st, func(in ssa.Instruction) bool { return in == ssa.Instruction(s.st) })
+		before, _ := MayReach(fn, s.st, func(in ssa.Instruction) bool { return in == use })
+		if after && before {
+			out = append(out, s.val...)
+		}
+	}
+	return out
+}
+
+// StructFieldOriginsAt: origins of field fld of the struct value v (as passed to
+// a call at instruction use).
+func StructFieldOriginsAt(v ssa.Value, fld *types.Var, use ssa.Instruction) []Leaf {
+	var vals []ssa.Value
+	if u, ok := v.(*ssa.UnOp); ok && u.Op == token.MUL {
+		if al, ok := u.X.(*ssa.Alloc); ok && localAggregate(al) {
+			vals = FieldValuesAt(al, fld, use)
+		}
+	}
+	if vals == nil {
+		vals = FieldValues(v, fld)
+	}
+	var out []Leaf
+	for _, fv := range vals {
+		out = append(out, Origins(fv)...)
 	}
 	return out
 }
